@@ -180,6 +180,12 @@ class Play:
         kind = kind or rng.choice(["wrong-leader", "stale", "equivocate", "future", "far-future", "parent-mismatch", "view-not-above",
                            "bad-qc-dup", "bad-qc-sub", "bad-qc-relabel", "bad-qc-nil", "unknown-qc-block", "skip-view",
                            "fork", "fork", "fork-lock", "fork-lock", "fork-lock"])
+        if kind == "unknown-qc-block" and self.agg:
+            # a SECOND certified block in the view of the current one (more than f replicas signing both) makes
+            # the high QC of later aggregate QCs a free choice between two valid certificates of one view: the
+            # implementation picks by map iteration order, no property says which — such runs cannot be compared
+            # line by line (DESIGN §11); the scenario stays for the plain timeout rule
+            kind = "bad-qc-sub"
         nm = self.fresh("X")
         ld = self.leader(v)
         parent, qc, view, prop = self.cur, self.curqc, v, ld
